@@ -72,6 +72,11 @@ type Out struct {
 // parseOK=false it is hostile but authentic: piece length 0.
 func authentic(size int, parseOK bool, seed int) ([]byte, error) {
 	pl := "16384"
+	if !parseOK && seed%2 == 1 {
+		// the other hostile flavour: everything valid, but no name (the last thing
+		// MetadataComplete checks); the padding moves to a key of its own
+		return noname(size, seed)
+	}
 	if !parseOK {
 		pl = "0"
 	}
@@ -95,6 +100,24 @@ func authentic(size int, parseOK bool, seed int) ([]byte, error) {
 		}
 	}
 	return nil, fmt.Errorf("cannot build a dictionary of %d bytes", size)
+}
+
+func noname(size int, seed int) ([]byte, error) {
+	for padlen := size; padlen >= 0; padlen-- {
+		pad := fmt.Sprintf("t%d-", seed)
+		if padlen < len(pad) {
+			break
+		}
+		pad += strings.Repeat("x", padlen-len(pad))
+		d := "d6:lengthi16000e4:name0:12:piece lengthi16384e6:pieces20:ABCDEFGHIJKLMNOPQRST4:zpad" + strconv.Itoa(len(pad)) + ":" + pad + "e"
+		if len(d) == size {
+			return []byte(d), nil
+		}
+		if len(d) < size-1 {
+			break
+		}
+	}
+	return nil, fmt.Errorf("cannot build a nameless dictionary of %d bytes", size)
 }
 
 func nb(s int) int { return (s + BS - 1) / BS }
@@ -224,7 +247,7 @@ func Replay(in []byte) any {
 			}
 			if !sc.ParseOK {
 				out.Violations = append(out.Violations, Viol{"C12", "invalid-metadata-accepted",
-					"an authentic but invalid dictionary (piece length 0) was published", k + 1})
+					"an authentic but invalid dictionary (piece length 0, or no name) was published", k + 1})
 			}
 			break
 		}
